@@ -166,13 +166,35 @@ def uses_of(body, l):
     return n
 
 
+def fn_item_refs(body):
+    out = []
+    for b in sorted(body.live_blocks()):
+        t = body.term(b)
+        if t['k'] == 'call':
+            for a in t['args']:
+                if 'c' in a and 'fn' in a['c']:
+                    out.append((a['c']['fn'], t['ln']))
+        for st in body.stmts(b):
+            rv = st['rv']
+            ops = [rv['a']] if rv['k'] == 'use' else (rv['ops'] if rv['k'] == 'agg' else [])
+            for o in ops:
+                if 'c' in o and 'fn' in o['c']:
+                    out.append((o['c']['fn'], st['ln']))
+    return out
+
+
 @rule('C09', 'no-swallow', configs=('default', 'p256'))
-def no_swallow(ctx):
+def no_swallow(ctx, only=None):
     F = ctx.F
     n = 0
-    for body in F.fns():
+    for body in (only if only is not None else F.fns()):
         if 'serde' in body.key or body.key.startswith('test_utils'):
             continue
+        for (fn, ln) in fn_item_refs(body):
+            if re.search(SWALLOW, fn['def']) and len(fn.get('gargs', [])) >= 2 and re.search(r'(error::Error|CryptoCoreError)$', fn['gargs'][1]):
+                ctx.bad(body.root or body.key, 'swallowed-by(%s)' % fn['name'],
+                        'an error of the crate is discarded by passing `%s` as a function (line %d): a failure becomes None / a default '
+                        'instead of being reported' % (fn['name'], ln), body.where(ln))
         for c in body.calls():
             if c.dest['p']:
                 continue
@@ -194,7 +216,7 @@ def no_swallow(ctx):
                         'an error of the crate is turned into a default / Option by `%s` (line %d) instead of being propagated' % (c.name, c.ln),
                         c.where())
     ctx.ok('-', 'no crate error is swallowed', '%d Result-producing calls examined' % n, '')
-    ctx.floor(n, 150, 'calls producing a crate Result')
+    ctx.floor(n, 150 if only is None else 1, 'calls producing a crate Result')
 
 
 @rule('C09', 'refresh-total', configs=('default', 'p256'))
@@ -234,3 +256,66 @@ def delegated(ctx):
     from . import c08, c11
     c08.verify_first(ctx)
     c11.selection(ctx)
+
+
+@rule('C09', 'rekey-guard-polarity', configs=('default', 'p256'))
+def rekey_guard_polarity(ctx):
+    """'rekey ... for rights the master key does not hold' fails: the error of rekey is raised when SOME requested right is
+    absent — on the absent edge of contains_key, or through any(|r| !contains) taken on its true edge / all(|r| contains) on its
+    false edge.  (`!any(contains)` would only fail when NO right is held.)"""
+    from ..facts import switch_on, bool_edges
+    F = ctx.F
+    rb = F.fn('core::primitives::rekey')
+    errs = [e for fb in F.family(rb.key) for e in lib.error_exits(fb) if e.kind == 'explicit' and e.variant == 'OperationNotPermitted']
+    n = 0
+    for e in lib.error_exits(rb):
+        if e.kind != 'explicit' or e.variant != 'OperationNotPermitted':
+            continue
+        n += 1
+        ok = False
+        why = 'it is not controlled by a membership test of the requested rights'
+        # (a) direct: on the false edge of contains_key
+        for c in rb.calls(r'RevisionMap::<K, V>::contains_key$'):
+            for (sb, neg) in switch_on(rb, c.dest['l']):
+                te, fe = bool_edges(rb, sb, neg)
+                if fe and rb.edge_dominates(fe, e.b):
+                    ok = True
+        # (b) through any / all with a predicate closure
+        for c in rb.calls(r'^std::iter::Iterator::(any|all)$'):
+            pol = None
+            for (_i, cb, _rv) in lib.closure_args(F, c):
+                ck = cb.calls(r'RevisionMap::<K, V>::contains_key$')
+                if len(ck) != 1:
+                    continue
+                # does the closure return the result negated?
+                src, d = lib.resolve_copy(cb, 0)
+                ret = backward_slice(cb, [0], follow_mutarg=False)
+                negs = sum(1 for x in ret.rvs if x.kind == 'assign' and x.rv['k'] == 'un' and x.rv['op'] == 'Not')
+                pol = '-' if negs % 2 == 1 else '+'
+            if pol is None:
+                continue
+            for (sb, neg) in switch_on(rb, c.dest['l']):
+                te, fe = bool_edges(rb, sb, neg)
+                on_true = te is not None and rb.edge_dominates(te, e.b)
+                on_false = fe is not None and rb.edge_dominates(fe, e.b)
+                good = (c.name == 'any' and pol == '-' and on_true) or (c.name == 'all' and pol == '+' and on_false)
+                if good:
+                    ok = True
+                elif on_true or on_false:
+                    why = 'it is raised on the %s edge of %s(|r| %scontains_key(r)): that is "%s", not "some requested right is absent"' % (
+                        'true' if on_true else 'false', c.name, '!' if pol == '-' else '',
+                        {('any', '+', True): 'some right is held', ('any', '+', False): 'no right is held', ('any', '-', False): 'all rights are held',
+                         ('all', '+', True): 'all rights are held', ('all', '-', True): 'no right is held', ('all', '-', False): 'some right is held'}.get(
+                            (c.name, pol, on_true), '?'))
+        ctx.check(ok, rb.key, 'error <=> some requested right is absent',
+                  'the OperationNotPermitted error of rekey (line %d) does not fire exactly when a requested right is missing: %s' % (e.ln, why),
+                  'absent edge of contains_key / any(!contains) / all(contains)', rb.where(e.ln))
+    ctx.floor(n, 1, 'OperationNotPermitted sites in rekey')
+
+
+@rule('C09', 'lookups-consistent')
+def lookups_consistent(ctx):
+    """'Unknown attribute -> error, success otherwise' needs the ordered dictionary behind hierarchies to keep names and positions
+    consistent across removals (C03.dict-remove-shifts)."""
+    from . import c03
+    c03.dict_remove_shifts(ctx)
